@@ -1,6 +1,7 @@
 (* C20 - PathBuilder helpers and Path::transform produce the documented geometry.
    PARTIAL: rect, transform and finish are proved (structure; the coordinates are the f32 sums / products of the code);
-   the arc's radius band, angles and direction are checked numerically on every output of the crate (lyon is an oracle). *)
+   the arc's radius band, angles and direction are checked numerically on every output of the crate (lyon is an oracle).
+   Further down (PathShape.v): builder calls in order, structure of arc (transcription of lyon's arc, curve count compared with the crate), transform structure. *)
 Require Import RQ.Base RQ.F32 RQ.Raster RQ.PathF RQ.PathOps RQ.MiscProofs.
 
 Theorem C20_rect_ops_partial : forall x y w h,
